@@ -103,6 +103,19 @@ func checkEvaluate(p polySpec, f []*big.Int, co []*big.Int, z *big.Int) error {
 	}
 	got := ref.FrInner(f, hx.FrSliceToBig(b))
 	want := ref.Horner(co, z)
+	if got.Cmp(want) == 0 {
+		// the returned slice belongs to the caller: overwrite it, then the same question must get the same answer
+		for i := range b {
+			b[i].SetUint64(uint64(i) + 7)
+		}
+		var b2 []fr.Element
+		if perr := hx.Try(func() { b2 = Cfg().PrecomputedWeights.ComputeBarycentricCoefficients(hx.FrFromBig(z)) }); perr != nil {
+			return perr
+		}
+		if got2 := ref.FrInner(f, hx.FrSliceToBig(b2)); got2.Cmp(want) != 0 {
+			return fmt.Errorf("the second ComputeBarycentricCoefficients(z=%s) after the caller overwrote the first result gives <f,coeffs> = %s, p(z) = %s", z.Text(16), got2.Text(16), want.Text(16))
+		}
+	}
 	if got.Cmp(want) != 0 {
 		return fmt.Errorf("<f, ComputeBarycentricCoefficients(z=%s)> = %s for %+v, but p(z) in coefficient form = %s", z.Text(16), got.Text(16), p, want.Text(16))
 	}
